@@ -21,9 +21,28 @@ if ours and theirs:
         if x not in ours.setdefault('fixed', []): ours['fixed'].append(x)
     json.dump(ours, open('known-findings.json','w'), indent=1)
 PY
+# harness/Cargo.toml: dependency lines added by different branches -> keep both sides
+if git diff --name-only --diff-filter=U | grep -q '^harness/Cargo.toml$'; then
+  python3 - <<'PY'
+p='harness/Cargo.toml'
+out=[]; seen=set()
+for l in open(p):
+    if l.startswith('<<<<<<<') or l.startswith('=======') or l.startswith('>>>>>>>'): continue
+    key=l.strip()
+    if key and key in seen and '=' in key: continue
+    seen.add(key); out.append(l)
+open(p,'w').write(''.join(out))
+PY
+  git add harness/Cargo.toml
+fi
+if git diff --name-only --diff-filter=U | grep -q '^harness/Cargo.lock$'; then
+  git checkout --ours harness/Cargo.lock; git add harness/Cargo.lock
+fi
 git checkout --ours MANIFEST.json 2>/dev/null || true
 python3 tools/gen_manifest.py
 git add known-findings.json MANIFEST.json
 left=$(git diff --name-only --diff-filter=U)
 if [ -n "$left" ]; then echo "UNRESOLVED: $left"; exit 1; fi
+(cd harness && CARGO_NET_OFFLINE=true cargo build --offline 2>&1 | grep -E "^error" -A6 | head -20) || true
+git add harness/Cargo.lock 2>/dev/null || true
 git commit -qm "merge $b" && echo "merged $b"
